@@ -149,6 +149,11 @@ func genCase(t *rapid.T) Case {
 			}
 			if c.Rsize == 32 && floaty {
 				imm = uint64(math.Float32bits(float32(rapid.SampledFrom([]float64{0, 1, -1, 2, 0.5, -3.25, 1000, 1e-3, 7.5, -0.125, 3.1415927}).Draw(t, "fimm"))))
+				if rapid.IntRange(0, 3).Draw(t, "fspecial") == 0 {
+					// raw patterns: -0.0, +/-inf, NaNs with either sign, subnormals (jgt0f judges raw bits;
+					// arithmetic on them stops the comparison before the instruction)
+					imm = uint64(rapid.SampledFrom([]uint32{0x80000000, 0x7f800000, 0xff800000, 0x7fc00000, 0xffc00000, 0x7f800001, 0x00000001, 0x80000001, 0x007fffff}).Draw(t, "fraw"))
+				}
 			}
 			line += " " + regName(t, nreg, "ra") + " " + strconv.FormatUint(imm, 10)
 		case "rin":
@@ -329,13 +334,6 @@ func simTrace(c Case, m *procbuilder.Machine, maxRet int) ([]snap, []int, string
 				break
 			}
 		}
-		if f[0] == "jgt0f" {
-			d, _ := strconv.Atoi(f[1][1:])
-			if !tame(math.Float32frombits(uint32(gen.U64(vm.Registers[d])))) {
-				stop = "before-float-special-value"
-				break
-			}
-		}
 		if f[0] == "ro2rri" {
 			sr, _ := strconv.Atoi(f[2][1:])
 			if gen.U64(vm.Registers[sr]) >= uint64(len(c.Prog)) {
@@ -365,7 +363,7 @@ func simTrace(c Case, m *procbuilder.Machine, maxRet int) ([]snap, []int, string
 			retiredPc = append(retiredPc, pc)
 			setIn(len(tr))
 		}
-		if steps > 50*maxRet+100 {
+		if steps > 300*maxRet+1000 { // addf simulates a 120-step "zero anomaly" latency
 			stop = "simulator-stalled"
 			break
 		}
@@ -435,7 +433,7 @@ func hdlTrace(c Case, b *built, maxRet int) ([]snap, []int, string, *pbt.Failure
 		if err := sim.Settle(); err != nil {
 			return nil, nil, "", pbt.Failf("interp", "%v", err)
 		}
-		if cycles > 50*maxRet+100 {
+		if cycles > 600*maxRet+2000 { // the float divider IP needs on the order of a hundred cycles per operation
 			return tr, retiredPc, "hdl-stalled", nil
 		}
 	}
@@ -589,7 +587,7 @@ func numbered(p []string) string {
 	return b.String()
 }
 
-const rule = "architecture Rsize in {8,16,32,64}, R in 1..3 (R=1 over-weighted), N/M 0..3 (non-zero only when the subset has IO opcodes), L in {0,2,4}, O = needed bits + 0..2, WordSize automatic / exact / larger, opcode subset = random non-empty subset of the co-implemented table for that Rsize (name-sorted), OnlyDestRegs on/off with requirements registered from the program through HLAssemblerNormalize; program 1..30 instructions with in-range operands and boundary immediates; one input vector per retire index; oracle: after every retired instruction (HDL: _pc receives a non-blocking assignment with reset low; simulator: completed Step) pc, every register and every output register agree, and the optimised HDL agrees too; comparison stops at end of program or before a division by zero; non-trivial = at least 3 retires and some register/output became non-zero"
+const rule = "(jgt0f is judged on every bit pattern incl. -0.0, NaN, infinities; float arithmetic on zero/normal finite values only) architecture Rsize in {8,16,32,64}, R in 1..3 (R=1 over-weighted), N/M 0..3 (non-zero only when the subset has IO opcodes), L in {0,2,4}, O = needed bits + 0..2, WordSize automatic / exact / larger, opcode subset = random non-empty subset of the co-implemented table for that Rsize (name-sorted), OnlyDestRegs on/off with requirements registered from the program through HLAssemblerNormalize; program 1..30 instructions with in-range operands and boundary immediates; one input vector per retire index; oracle: after every retired instruction (HDL: _pc receives a non-blocking assignment with reset low; simulator: completed Step) pc, every register and every output register agree, and the optimised HDL agrees too; comparison stops at end of program or before a division by zero; non-trivial = at least 3 retires and some register/output became non-zero"
 
 var Props = []*pbt.Entry{
 	pbt.Def("lockstep", rule, genCase, prop),
